@@ -366,10 +366,14 @@ fn reduce_chain_links(
 ) -> Result<HashMap<String, LinkMetadata>> {
     let mut res = HashMap::new();
     link_files.iter().try_for_each(|(k, v)| -> Result<()> {
+        // Pick the representative link deterministically (smallest key id):
+        // the iteration order of a HashMap differs from run to run, and for
+        // steps with a threshold <= 1 the links are not required to agree.
         res.insert(
             k.clone(),
-            v.values()
-                .last()
+            v.iter()
+                .min_by(|a, b| a.0.cmp(b.0))
+                .map(|(_, link)| link)
                 .ok_or_else(|| {
                     Error::VerificationFailure(format!(
                         "step {} does not have enough LinkMetadata.",
